@@ -2,7 +2,7 @@
 from engine import templates as T
 from engine.graphs import GRAPHS
 
-T.register("C03", __name__, T.h_keys, {}, [GRAPHS[g] for g in sorted(GRAPHS)], lemma="K1K2", name_prefix="keys", timeout=240,
+T.register("C03", __name__, T.h_keys, {}, [GRAPHS[g] for g in sorted(GRAPHS) if "effopt" not in GRAPHS[g].tags], lemma="K1K2", name_prefix="keys", timeout=240,
            what="every reported key is present in o; evaluating on o restricted to exactly the reported keys gives the same "
                 "outcome and reports the same keys",
            bounds="one symbolic dictionary")
